@@ -522,6 +522,9 @@ func firstWords(s string, n int) string {
 }
 
 func run(c *h.Check) {
+	for _, sc := range concurrentScenarios15() {
+		c.Explore(sc, 2, 200000, false)
+	}
 	for i, cl := range cells() {
 		if !c.Mine(i) {
 			continue
@@ -538,6 +541,11 @@ func run(c *h.Check) {
 }
 
 func replay(c *h.Check, rf *h.ReplayFile) []vrt.Violation {
+	for _, sc := range concurrentScenarios15() {
+		if sc.Name == rf.Scenario {
+			return h.ReplaySchedule(sc, rf)
+		}
+	}
 	var cl cell
 	json.Unmarshal(rf.Ops, &cl)
 	var vs []vrt.Violation
